@@ -359,7 +359,7 @@ def runCmd (w : World) (tok : Array String) : World × List String :=
            String.join (ev.values.map (fun v => " v " ++ putSum (some v)))]))
   | "PATH" =>
     match w.slot (slotOf (t 1)) with
-    | none => (w, ["path ?"])
+    | none => (w, ["path null"])
     | some kf => (w, [s!"path {hexStr (kf.path.getD [])}"])
   | "TAGS" =>
     match kfArg w (t 1) with
